@@ -210,7 +210,7 @@ func getOutDir(outDirSpec, wd string) string {
 }
 
 func defaultPackage(wd string) (string, error) {
-	pkg, parent, err := currentModule()
+	pkg, parent, err := currentModule(wd)
 	if err == nil {
 		pkg = pkg + strings.TrimPrefix(wd, parent)
 		return pkg, nil
@@ -236,16 +236,15 @@ func sanitizePackage(pkg string) string {
 
 var errNoModules = errors.New("not using modules")
 
-// currentModule looks in all parent dirs for a go.mod file containing
-// a module name.
-func currentModule() (string, string, error) {
-	parent, err := os.Getwd()
-	if err != nil {
-		// A nonexistent working directory can't be in a module.
-		return "", "", fmt.Errorf("getting working directory: %s", err)
-	}
+// currentModule looks in dir and all its parent dirs for a go.mod file
+// containing a module name.
+func currentModule(dir string) (string, string, error) {
+	// The module is the one dir belongs to: a directory below the working
+	// directory may hold a go.mod of its own.
+	parent := dir
 
 	var info os.FileInfo
+	var err error
 	for {
 		info, err = os.Stat(filepath.Join(parent, "go.mod"))
 		if err == nil && !info.IsDir() {
